@@ -733,6 +733,34 @@ def oracle_cases(ctx, deep):
         cases.append({'kind': 'expansion', 'spec': {'ranges': gen_splitting_ranges(rng)}})
     for _ in range(10 if deep else 4):
         cases.append({'kind': 'runs', 'spec': {'runs': [gen_run(rng) for _ in range(int(rng.integers(1, 6)))]}})
+    # pairs a decoder handles but does not LIST in its (GUI-menu) allowed_codes: the expansion must keep them
+    # (checked first that the pair is constructible on this tree)
+    from panqec.config import CODES as _CODES, DECODERS as _DECODERS
+    from panqec.error_models import PauliErrorModel as _PEM
+    for dname, dpar, cnames in (('MatchingDecoder', {'error_type': 'X'},
+                                 ['Toric3DCode', 'Planar3DCode', 'RotatedPlanar3DCode', 'HollowPlanar3DCode']),
+                                ('SweepMatchDecoder', {}, ['HollowPlanar3DCode'])):
+        for cname in cnames:
+            try:
+                quiet(lambda: _DECODERS[dname](_CODES[cname](2, 2, 2), _PEM(0.25, 0.25, 0.5), 0.125, **dpar))
+            except Exception:  # noqa
+                continue
+            cases.append({'kind': 'expansion', 'spec': {'ranges': {
+                'label': 'unlisted', 'code': {'name': cname, 'parameters': [{'L_x': 2, 'L_y': 2, 'L_z': 2}, [2, 2, 3]]},
+                'error_model': {'name': 'PauliErrorModel', 'parameters': [{'r_x': 0.25, 'r_y': 0.25, 'r_z': 0.5}]},
+                'decoder': {'name': dname, 'parameters': dpar}, 'error_rate': [0.0625, 0.125]}}})
+    # falsy parameter values that differ from the class defaults must be kept as given
+    cases.append({'kind': 'expansion', 'spec': {'ranges': {
+        'label': 'falsy', 'code': {'name': 'Toric2DCode', 'parameters': [{'L_x': 2, 'L_y': 2}]},
+        'error_model': {'name': 'PauliErrorModel', 'parameters': [{'r_x': 0.25, 'r_y': 0.25, 'r_z': 0.5}]},
+        'decoder': {'name': 'BeliefPropagationOSDDecoder',
+                    'parameters': [{'osd_order': 0, 'max_bp_iter': 5}, {'osd_order': 2, 'channel_update': False}]},
+        'error_rate': [0.125]}}})
+    cases.append({'kind': 'expansion', 'spec': {'ranges': {
+        'label': 'falsy2', 'code': {'name': 'Toric2DCode', 'parameters': [{'L_x': 2, 'L_y': 2}]},
+        'error_model': {'name': 'PauliErrorModel', 'parameters': [{'r_x': 0.25, 'r_y': 0.25, 'r_z': 0.5}]},
+        'decoder': {'name': 'MemoryBeliefPropagationDecoder', 'parameters': [{'alpha': 0, 'max_bp_iter': 5}, {'beta': 0}]},
+        'error_rate': [0.125]}}})
     # one axis with five values
     big = gen_ranges(rng, max_product=1)
     big['error_rate'] = RATES[:5]
